@@ -125,6 +125,11 @@ def run_case(case, ctx):
             else:
                 calls.append(("update", X))
         as_frame = bool(rng.random() < 0.3)
+        if rng.random() < 0.15:
+            # dtype varies along the history: a whole-number reference handed over with an integer dtype, later batches as floats
+            calls[0] = ("set_reference", np.round(calls[0][1] * 3))
+            int_first = True
+    int_first = locals().get("int_first", False)
     det, m, probe = make(cfg)
     db = cfg["detect_batch"]
     cols = ["f%d" % j for j in range(cfg["d"])]
@@ -136,7 +141,10 @@ def run_case(case, ctx):
     with rngtap.Tap() as tap:
         for i, (op, X) in enumerate(calls):
             np.random.seed(rngtap.seed_for(case.get("seed_key", case["id"]), i))
-            arg = pd.DataFrame(X.copy(), columns=cols) if as_frame else X.copy()
+            Xa = X.astype(np.int64) if (int_first and i == 0) else X.copy()
+            arg = pd.DataFrame(Xa, columns=cols) if as_frame else Xa
+            if int_first and i == 0:
+                ctx.count("integer_typed_reference_then_float_batches")
             mark = tap.mark()
             ncall0 = len(probe.calls) if probe else 0
             getattr(det, op)(arg)
